@@ -101,6 +101,12 @@ def InRange (n : Nat) (neighbors : List (List Nat)) (sizes : List Nat) : Prop :=
 def Symmetric (n : Nat) (neighbors : List (List Nat)) (sizes : List Nat) : Prop :=
   ((edges n neighbors sizes).map fun e => (e.2, e.1)).Perm (edges n neighbors sizes)
 
+instance (n : Nat) (N : List (List Nat)) (S : List Nat) : Decidable (InRange n N S) := by
+  unfold InRange; infer_instance
+
+instance (n : Nat) (N : List (List Nat)) (S : List Nat) : Decidable (Symmetric n N S) := by
+  unfold Symmetric; infer_instance
+
 /-- the unordered neighbouring pairs: the directed pairs `(i, j)` with `i < j` -/
 def pairs (n : Nat) (neighbors : List (List Nat)) (sizes : List Nat) : List (Nat × Nat) :=
   (edges n neighbors sizes).filter fun e => e.1 < e.2
